@@ -98,6 +98,10 @@ func c12Worker(w *W) {
 	registerMonitorPlugins()
 	console := &chunkSink{}
 	log.Stdout = console
+	if w.Spec.Kind == "overflow" {
+		c12OverflowWorker(w)
+		return
+	}
 	if w.Spec.Kind == "missing" {
 		// a requested name that no configuration defines: Refresh must fail
 		h := log.GetLogger("nosuchlogger")
@@ -420,6 +424,16 @@ func init() {
 				specs = append(specs, s)
 			}
 			specs = append(specs, d.NewSpec("missing", "missing", 0, 1))
+			// discard policies: whatever is delivered after a queue overflow is still verbatim, at most once, in call order
+			for i := 0; i < int(d.Pick(3, 8)); i++ {
+				s := d.NewSpec("overflow", fmt.Sprintf("ovf-%d", i), 70+i, 16)
+				s.N = d.Pick(2, 10)
+				if i == 2 {
+					s.Flavour = "race"
+				}
+				s.TimeoutS = int(d.Pick(300, 1200))
+				specs = append(specs, s)
+			}
 			specs = d.WithRuntimeVariants(specs, int(d.Pick(3, 1)), func(s Spec) bool { return s.Kind == "write" })
 			outs := d.RunWorkers(specs, 16)
 			d.raceVerdict(outs)
